@@ -14,7 +14,7 @@ for b in blocks:
     m=re.match(r'Checking harness (\S+)',b)
     if not m: continue
     name=m.group(1)
-    checks=re.findall(r'Check \d+: (\S+)\n\s+- Status: (\S+)\n\s+- Description: "(.*)"\n\s+- Location: (.*)',b)
+    checks=re.findall(r'Check \d+: (.+)\n\s+- Status: (\S+)\n\s+- Description: "(.*)"\n\s+- Location: (.*)',b)
     fails=[c for c in checks if c[1] not in ('SUCCESS','SATISFIED','UNREACHABLE')]
     summ=re.findall(r'\*\* .*|VERIFICATION:- \w+|Verification Time: .*',b)
     print('==',name,len(checks),'checks;',' | '.join(summ))
